@@ -11,7 +11,7 @@ LEVEL_TEXT = ('Bounded symbolic verification, inductive: manual_stop from every 
               'continuation); manual_start from stopped connects at once; from a running session it changes nothing. Plus '
               'symbolic event sequences from boot with a stopped-monitor, and the REST manual-stop / manual-start views.')
 LEVEL_NOTE = 'Twisted as modelled; stopped states are those vf/session.in_state builds (Idle, nothing armed, optionally a close still pending).'
-LEVEL_ADDED = 'Also: stop / start from states with an earlier connection in the history (finished or still closing). Peer data arriving on the connection after the stop (bad marker, unknown type, wrong-AS OPEN, KEEPALIVE, UPDATE, NOTIFICATION).'
+LEVEL_ADDED = "Also: stop / start from states with an earlier connection in the history (finished or still closing). Peer data arriving on the connection after the stop (bad marker, unknown type, wrong-AS OPEN, KEEPALIVE, UPDATE, NOTIFICATION). A stop before the agent's deferred first automatic start; a stop while an attempt is pending in an environment that refuses the TCP-MD5 key."
 TECHNIQUE = 'symbolic one-step closure over stopped states + bounded symbolic sequences with a monitor (CrossHair+z3)'
 EXPLANATION = 'C13: stop step, stopped-closure, start step, monitored sequences.'
 BOUNDS = 'all states x stop; stopped states x all environment events; sequences from boot depth 4 (quick) / 5 (thorough)'
